@@ -468,7 +468,7 @@ func (t *gateTarget) prefix(k string) string {
 func gateQuiesce(t *gateTarget) bool {
 	prev := t.snapshot()
 	stable := 0
-	for i := 0; i < 200; i++ {
+	for i := 0; i < 75; i++ {
 		time.Sleep(40 * time.Millisecond)
 		cur := t.snapshot()
 		if bytes.Equal(prev.b, cur.b) {
@@ -629,7 +629,7 @@ type gateTraffic struct {
 	conv     uint32
 }
 
-func gateRunTraffic(t *testing.T, block BlockCrypt, ds, ps int, rng *vrng) gateTraffic {
+func gateRunTraffic(t *testing.T, block BlockCrypt, ds, ps int, rng *vrng) (gateTraffic, error) {
 	ca, cb := gateNewConn("client:1"), gateNewConn("server:1")
 	ca.peer, cb.peer = cb, ca
 	l, err := ServeConn(block, ds, ps, cb)
@@ -696,9 +696,12 @@ func gateRunTraffic(t *testing.T, block BlockCrypt, ds, ps int, rng *vrng) gateT
 		}
 		done <- nil
 	}()
+	var terr error
 	for i := 0; i < 2; i++ {
-		if err := <-done; err != nil {
-			t.Fatalf("traffic did not complete: %v", err)
+		if err := <-done; err != nil && terr == nil {
+			terr = err
+			a.Close() // unblocks the other side
+			l.Close()
 		}
 	}
 	time.Sleep(30 * time.Millisecond) // let the last ACKs out
@@ -716,7 +719,7 @@ func gateRunTraffic(t *testing.T, block BlockCrypt, ds, ps int, rng *vrng) gateT
 	l.Close()
 	ca.Close()
 	cb.Close()
-	return tr
+	return tr, terr
 }
 
 // ---------------------------------------------------------------- the test
@@ -744,9 +747,21 @@ func TestVerifC06(t *testing.T) {
 	}
 	logged, logBudget := 0, 0
 	streamLikeChecks, streamLikeBad := 0, 0
+	var trafficFailed []string
+	nK := 0
+	fecs := [][2]int{{0, 0}, {3, 2}}
+	defer func() { // also runs when a t.Fatalf ends the test early: the report is always written
+		rep.Extra["traffic_failed"] = trafficFailed
+		rep.Extra["crc_compare_inputs"] = nK
+		rep.Extra["decision_lines_logged"] = logged
+		rep.Extra["stream_like_checks"] = streamLikeChecks
+		rep.Extra["stream_like_mismatches"] = streamLikeBad
+		rep.Extra["nontrivial_rule"] = "a fed failing datagram counts as non-trivial when the target session held received data (rcv_queue/rcv_buf non-empty), a reader carry-over (bufptr non-empty) and, with FEC on, at least one open shard group"
+		rep.sample(map[string]any{"ciphers": len(gateCiphers()), "fec": fecs})
+		rep.write(t, "C06.report.json")
+	}()
 
 	// ---- K lines: hash/crc32 vs the Coq model, random and structured inputs, lengths 0..1500
-	nK := 0
 	kline := func(b []byte) {
 		lg.printf("K %s %d\n", hx(b), crc32.ChecksumIEEE(b))
 		nK++
@@ -791,7 +806,6 @@ func TestVerifC06(t *testing.T) {
 		}
 	}
 
-	fecs := [][2]int{{0, 0}, {3, 2}}
 	for _, c := range gateCiphers() {
 		for _, fec := range fecs {
 			ds, ps := fec[0], fec[1]
@@ -801,10 +815,14 @@ func TestVerifC06(t *testing.T) {
 				t.Fatalf("%s: %v", cfgName, err)
 			}
 			t0 := time.Now()
-			tr := gateRunTraffic(t, block, ds, ps, rng)
+			tr, terr := gateRunTraffic(t, block, ds, ps, rng)
 			tTraffic := time.Since(t0)
-			if len(tr.toServer) < 8 || len(tr.toClient) < 8 {
-				t.Fatalf("%s: too little traffic captured (%d/%d)", cfgName, len(tr.toServer), len(tr.toClient))
+			if terr != nil || len(tr.toServer) < 8 || len(tr.toClient) < 8 {
+				// no valid traffic to start from (the echo did not complete): nothing to corrupt
+				// for this configuration; the run is reported as incomplete, the others go on
+				t.Errorf("%s: real traffic did not complete (%v; captured %d/%d)", cfgName, terr, len(tr.toServer), len(tr.toClient))
+				trafficFailed = append(trafficFailed, cfgName)
+				continue
 			}
 			// every captured datagram must be valid (the gate is not vacuous on real output,
 			// data and parity alike): monitor from the property's premise "valid datagram"
@@ -1006,6 +1024,7 @@ func TestVerifC06(t *testing.T) {
 				}
 				logBudget = logged + perTarget
 				violated := false
+				nviol := 0
 				var last *gateSnap
 				snapA, snapB := &gateSnap{b: make([]byte, 0, 1<<16)}, &gateSnap{b: make([]byte, 0, 1<<16)}
 				feedBuf := make([]byte, 0, 2048)
@@ -1063,6 +1082,10 @@ func TestVerifC06(t *testing.T) {
 						}
 						rep.violate("gate-state-changed:"+tg.path+":"+c.name, fmt.Sprintf("%s: a datagram failing the integrity check (%s, %s) changed %v", cfgName, cs.kind, cs.detail, diff), replay)
 						violated = true
+						nviol++
+						if nviol >= 4 {
+							break // enough replayable inputs for this target; later comparisons would be noise
+						}
 						gateQuiesce(tg) // let whatever was triggered settle before the next comparison
 					}
 					// correspondence log: a uniform sample of the fed datagrams, plus every
@@ -1111,13 +1134,6 @@ func TestVerifC06(t *testing.T) {
 			sc.Close()
 		}
 	}
-	rep.Extra["crc_compare_inputs"] = nK
-	rep.Extra["decision_lines_logged"] = logged
-	rep.Extra["stream_like_checks"] = streamLikeChecks
-	rep.Extra["stream_like_mismatches"] = streamLikeBad
-	rep.Extra["nontrivial_rule"] = "a fed failing datagram counts as non-trivial when the target session held received data (rcv_queue/rcv_buf non-empty), a reader carry-over (bufptr non-empty) and, with FEC on, at least one open shard group"
-	rep.sample(map[string]any{"ciphers": len(gateCiphers()), "fec": fecs})
-	rep.write(t, "C06.report.json")
 	if len(rep.Violations) > 0 {
 		t.Logf("C06: %d violation(s), first: %s", len(rep.Violations), rep.Violations[0].What)
 	}
